@@ -244,7 +244,11 @@ func c11Gen(r *Rng, i int, tier string) any {
 		opts = fsGenOpts{fixedBundle: 100, maxBundle: 100, maxFiles: 2, breakPct: 0, noStopPct: 10}
 	}
 	if in.Kind == "cursor" {
+		// exactly one fault: the cursor cases inject a download fault, so the bundles themselves are whole and parent-linked
+		// (a bundle cut on a message boundary is a second fault: seeds 2 and 3 of the quick tier drew such layouts and the
+		// non-sequential-blocks error of the cut bundle, which comes first, was reported as a violation: a false alarm)
 		opts.breakPct = 0
+		opts.cutPct = 0
 	}
 	in.Layout = *fsGenLayout(lr, opts)
 	if in.Kind == "stream" && in.Layout.Stop != 0 && in.Layout.Stop < in.Layout.Start {
